@@ -112,6 +112,10 @@ func (s *State) hset(key string, t *Term, ref *Term) {
 }
 
 func (s *State) setVar(o types.Object, v *Value) {
+	if old, ok := s.env[o]; ok && old != nil && v != nil && sameValue(old, v) {
+		s.env[o] = v
+		return // re-assignment of the same value (e.g. x = x.Add(...)): not a modification
+	}
 	s.env[o] = v
 	for w := s.wlog; w != nil; w = w.parent {
 		w.vars[o] = true
@@ -587,7 +591,7 @@ func (x *Exec) merge(a, b *State) *State {
 		if ta == tb {
 			n.heap[k] = ta
 		} else {
-			n.heap[k] = x.vc.define("hm", Ite(c, ta, tb))
+			n.heap[k] = x.vc.define("hm", x.mergeArr(c, ta, tb))
 		}
 	}
 	if a.allocBase == b.allocBase {
@@ -663,4 +667,90 @@ func (x *Exec) havocHeap(st *State, writes []heapWrite, top *Term) {
 		}
 		st.heap[k] = nm
 	}
+}
+
+func sameValue(a, b *Value) bool {
+	if a.Fs != nil || b.Fs != nil {
+		return false
+	}
+	if a.P != nil && b.P != nil {
+		return a.P.simple() && b.P.simple() && a.P.Base == b.P.Base
+	}
+	if a.P != nil || b.P != nil {
+		var at, bt *Term
+		if a.P != nil && a.P.simple() {
+			at = a.P.Base
+		} else {
+			at = a.Tm
+		}
+		if b.P != nil && b.P.simple() {
+			bt = b.P.Base
+		} else {
+			bt = b.Tm
+		}
+		return at != nil && at == bt
+	}
+	return a.Tm != nil && a.Tm == b.Tm
+}
+
+type storeStep struct {
+	k, v *Term
+	at   *Term // the term after this store
+}
+
+// storeChain unwinds t through stores and definitions down to its base.
+func (x *Exec) storeChain(t *Term) (*Term, []storeStep) {
+	var steps []storeStep
+	for len(steps) < 64 {
+		if t.Op == "store" {
+			steps = append(steps, storeStep{t.Args[1], t.Args[2], t})
+			t = t.Args[0]
+			continue
+		}
+		if d := x.vc.defs[t]; d != nil && d.Op == "store" {
+			steps = append(steps, storeStep{d.Args[1], d.Args[2], t})
+			t = d.Args[0]
+			continue
+		}
+		break
+	}
+	// innermost first
+	for i, j := 0, len(steps)-1; i < j; i, j = i+1, j-1 {
+		steps[i], steps[j] = steps[j], steps[i]
+	}
+	return t, steps
+}
+
+// mergeArr merges two versions of a heap map under condition c. When both are
+// store chains over a common ancestor the result is that ancestor with the
+// diverging stores applied conditionally (pointwise), which solvers handle far
+// better than an if-then-else between whole arrays.
+func (x *Exec) mergeArr(c, ta, tb *Term) *Term {
+	if ta.S.K != KArr {
+		return Ite(c, ta, tb)
+	}
+	ba, ca := x.storeChain(ta)
+	bb, cb := x.storeChain(tb)
+	if ba != bb {
+		return Ite(c, ta, tb)
+	}
+	n := 0
+	for n < len(ca) && n < len(cb) && ca[n].at == cb[n].at {
+		n++
+	}
+	ra, rb := ca[n:], cb[n:]
+	if len(ra)+len(rb) > 16 {
+		return Ite(c, ta, tb)
+	}
+	cur := ba
+	if n > 0 {
+		cur = ca[n-1].at
+	}
+	for _, s := range ra {
+		cur = Store(cur, s.k, Ite(c, s.v, Select(cur, s.k)))
+	}
+	for _, s := range rb {
+		cur = Store(cur, s.k, Ite(c, Select(cur, s.k), s.v))
+	}
+	return cur
 }
